@@ -67,10 +67,10 @@ PROPS = {
     "C08": dict(kind="run", proj="P_C08", mon="mon_C08",
                 profiles=["junk", "react_junk", "react"], quick=240, thorough=6000,
                 finding_profiles=["parloop_all"]),
-    "C14": dict(kind="run", proj="P_ids", mon="mon_C14",
+    "C14": dict(kind="run", proj="P_ids", mon="mon_C14", property_files=("C14net",),
                 profiles=["uuid", "uuid_cond_loops", "uuid_loops_calls", "loops", "parloop", "parallel", "react_loops"], quick=240, thorough=6000,
                 finding_profiles=["parloop_all"]),
-    "C15": dict(kind="run", proj="P_C15", mon="mon_true",
+    "C15": dict(kind="run", proj="P_C15", mon="mon_true", property_files=("C15net",),
                 profiles=["params", "params_indexed", "hostile_append", "hostile_clear", "hostile_replace"],
                 quick=240, thorough=6000, finding_profiles=["parloop_all"]),
     "C17": dict(kind="run", proj="P_C17", mon="mon_C17", py_monitor="petri_net_notices",
